@@ -19,6 +19,7 @@ type Layout struct {
 	FrameDur       uint32 // duration of every video frame in VideoTS
 	SegFrames      []int  // video frames per segment
 	AudioSegs      []int  // audio frames (1024 @ 48 kHz) per audio segment; nil = no audio
+	AudioTrexDur   uint32 // if != 0: default sample duration in the audio init segment's trex (the segments' tfhd says 1024)
 	UseTime        bool   // SegmentTimeline + $Time$ templates instead of $Number$ + duration
 	StartNr        int    // startNumber of $Number$ templates
 	Text           bool   // add an stpp track (1 sample per video segment, timescale 1000) -- needs whole-ms segments
@@ -78,10 +79,19 @@ func writeInit(dst string, in *mp4.InitSegment, ts uint32) error {
 }
 
 func writeSeg(dst string, seqNr, trackID uint32, samples []mp4.FullSample) error {
+	return writeSegOpt(dst, seqNr, trackID, samples, false)
+}
+
+// writeSegOpt: with optimize, common sample values move into the tfhd defaults (as packagers do).
+func writeSegOpt(dst string, seqNr, trackID uint32, samples []mp4.FullSample, optimize bool) error {
 	seg := mp4.NewMediaSegment()
 	frag, err := mp4.CreateFragment(seqNr, trackID)
 	if err != nil {
 		return err
+	}
+	if optimize {
+		frag.EncOptimize = mp4.OptimizeTrun
+		seg.EncOptimize = mp4.OptimizeTrun
 	}
 	seg.AddFragment(frag)
 	for _, s := range samples {
@@ -165,6 +175,9 @@ func Generate(root, src string, l Layout) error {
 		if err := os.MkdirAll(filepath.Join(dir, "A48"), 0o755); err != nil {
 			return err
 		}
+		if l.AudioTrexDur != 0 {
+			audio.init.Moov.Mvex.Trex.DefaultSampleDuration = l.AudioTrexDur
+		}
 		if err := writeInit(filepath.Join(dir, "A48", "init.mp4"), audio.init, 48000); err != nil {
 			return err
 		}
@@ -184,7 +197,7 @@ func Generate(root, src string, l Layout) error {
 			if l.UseTime {
 				name = fmt.Sprintf("%d.m4s", start)
 			}
-			if err := writeSeg(filepath.Join(dir, "A48", name), uint32(l.StartNr+si), audio.trackID(), ss); err != nil {
+			if err := writeSegOpt(filepath.Join(dir, "A48", name), uint32(l.StartNr+si), audio.trackID(), ss, l.AudioTrexDur != 0); err != nil {
 				return err
 			}
 			asegs = append(asegs, segT{start, t - start})
@@ -288,6 +301,8 @@ func Layouts(quick bool) []Layout {
 		// 1.92 s segments (48 frames at 25 fps): off-second starts whose segments intersect three UTC seconds
 		Layout{Name: "g_1920ms", VideoTS: 12800, FrameDur: 512, SegFrames: []int{48, 48, 48, 48}, AudioSegs: []int{90, 90, 90, 90}, Text: true},
 		// audio VoD grid coarser than the video grid: one 8 s audio segment for 4 x 2 s video segments
+		// the audio init segment's trex default sample duration differs from the tfhd default of the segments
+		Layout{Name: "g_trex_vs_tfhd", VideoTS: 90000, FrameDur: 3000, SegFrames: []int{60, 60}, AudioSegs: []int{94, 94}, AudioTrexDur: 1536},
 		Layout{Name: "g_audio_one_seg", VideoTS: 90000, FrameDur: 3000, SegFrames: []int{60, 60, 60, 60}, AudioSegs: []int{375}},
 	)
 	if !quick {
